@@ -616,6 +616,149 @@ theorem rights_kept (s : State) :
   · intro op
     exact ⟨fun h => h.symm, fun h => Or.inr (Or.inl h.symm), fun h => Or.inr h.symm⟩
 
+/-! ### What is pending is always well-formed -/
+
+/-- well-formedness of what is pending: the pending owner is never the owner itself, a pending key
+    is never the current worker, and a pending beneficiary proposal never carries both approvals
+    (it would already have taken effect) -/
+def PendingWF (s : State) : Prop :=
+  s.pendingOwner ≠ some s.owner ∧
+  (∀ k, s.pendingWorker = some k → k.newWorker ≠ s.worker) ∧
+  (∀ p, s.pendingBen = some p → ¬ (p.approvedByBeneficiary = true ∧ p.approvedByNominee = true))
+
+theorem pendingWF_init (o w : Nat) (cs : List Nat) : PendingWF (init o w cs) := by
+  simp [PendingWF, init]
+
+theorem pendingWF_step (s : State) (op : Op) (h : PendingWF s) : PendingWF (step s op).1 := by
+  have he := step_effect s op
+  generalize (step s op).1 = s' at he
+  obtain ⟨h1, h2, h3⟩ := h
+  cases he with
+  | noChange => exact ⟨h1, h2, h3⟩
+  | proposeOwner newAddr =>
+    refine ⟨?_, h2, h3⟩
+    by_cases hn : newAddr = s.owner <;> simp [hn]
+  | confirmOwner p hp hne =>
+    exact ⟨by simp, h2, by simp⟩
+  | changeWorker nw nc e hlen =>
+    refine ⟨h1, ?_, h3⟩
+    intro k hk
+    by_cases hc : nw ≠ s.worker ∧ s.pendingWorker = none
+    · simp only at hk
+      rw [if_pos hc] at hk
+      injection hk with hk; subst hk; exact hc.1
+    · simp only at hk
+      rw [if_neg hc] at hk
+      exact h2 k hk
+  | applyWorker op e k hop hk hle =>
+    exact ⟨h1, by simp, h3⟩
+  | withdraw => exact ⟨h1, h2, h3⟩
+  | proposeBen new q x e hq =>
+    refine ⟨by simpa using h1, by simpa using h2, ?_⟩
+    intro p hp
+    rw [benFinish_spec _ _ _ _ rfl] at hp
+    split at hp
+    · simp at hp
+    · rename_i hno
+      simp only [Option.some.injEq] at hp
+      subst hp
+      simpa using hno
+  | approveBen c p e hp hc hc2 =>
+    refine ⟨by simpa using h1, by simpa using h2, ?_⟩
+    intro p' hp'
+    rw [benFinish_spec _ _ _ p hp] at hp'
+    split at hp'
+    · simp at hp'
+    · rename_i hno
+      simp only [Option.some.injEq] at hp'
+      subst hp'
+      simpa using hno
+
+/-- **pending_wellformed.** `PendingWF` holds in every state reachable from a freshly constructed
+    miner, whatever the history. -/
+theorem pendingWF_run (s : State) (ops : List Op) (h : PendingWF s) : PendingWF (run s ops) := by
+  induction ops generalizing s with
+  | nil => exact h
+  | cons op rest ih => exact ih _ (pendingWF_step s op h)
+
+/-- a successful withdrawal for a non-owner beneficiary happens strictly before the term's
+    expiration and keeps the used quota within the quota -/
+theorem withdraw_within_term (s : State) (c : Nat) (a e : Int) (r : Bool) (w : Int)
+    (h : (step s (.withdrawUse c a e r)).2 = .withdrawn w) (hb : s.beneficiary ≠ s.owner) :
+    (c = s.owner ∨ c = s.beneficiary) ∧ e < s.benTerm.expiration ∧ 0 ≤ w ∧
+    (step s (.withdrawUse c a e r)).1.benTerm.usedQuota = s.benTerm.usedQuota + w ∧
+    s.benTerm.usedQuota + w ≤ s.benTerm.quota := by
+  simp only [step] at h ⊢
+  cases hw : withdrawUse s c a e r with
+  | error err => simp [hw] at h
+  | ok sw =>
+    obtain ⟨s', w'⟩ := sw
+    simp only [hw] at h ⊢
+    injection h with h; subst h
+    obtain ⟨hc, _, _, h1 | h1⟩ := withdrawUse_ok hw
+    · exact absurd h1.1 hb
+    · obtain ⟨_, hav, hw0, _, hwv, hs⟩ := h1
+      subst hs
+      unfold Term.available at hav hwv
+      refine ⟨hc, ?_, hw0, rfl, ?_⟩
+      · by_cases hx : s.benTerm.expiration > e
+        · omega
+        · simp [hx] at hav
+      · by_cases hx : s.benTerm.expiration > e
+        · simp only [hx, if_true] at hav hwv
+          split at hwv <;> split at hav <;> omega
+        · simp [hx] at hav
+
+/-! ### The handovers do go through (the hypotheses above are not vacuous, in every state) -/
+
+/-- the two-step owner handover goes through in every state -/
+theorem owner_handover_completes (s : State) (p : Nat) (hp : p ≠ s.owner) :
+    (run s [.changeOwner s.owner p true, .changeOwner p p true]).owner = p ∧
+    (run s [.changeOwner s.owner p true]).owner = s.owner ∧
+    (run s [.changeOwner s.owner p true]).pendingOwner = some p := by
+  simp [run, step, changeOwner, clearNoop, hp]
+
+/-- a requested key change goes through at the delay, not before -/
+theorem worker_handover_completes (s : State) (nw : Nat) (nc : List Nat) (e0 e : Int)
+    (hlen : nc.length ≤ 10) (hnw : nw ≠ s.worker) (hnone : s.pendingWorker = none) :
+    (e0 + 900 ≤ e →
+      (run s [.changeWorker s.owner nw nc e0 true true, .confirmChangeWorker s.owner e]).worker = nw ∧
+      (run s [.changeWorker s.owner nw nc e0 true true, .cronTick e]).worker = nw) ∧
+    (e < e0 + 900 →
+      (run s [.changeWorker s.owner nw nc e0 true true, .confirmChangeWorker s.owner e]).worker = s.worker ∧
+      (run s [.changeWorker s.owner nw nc e0 true true, .cronTick e]).worker = s.worker) := by
+  have h1 : ¬ nc.length > maxControlAddresses := by
+    show ¬ nc.length > 10
+    omega
+  have hd : workerKeyChangeDelay = 900 := rfl
+  constructor
+  · intro he
+    have : ¬ e < e0 + workerKeyChangeDelay := by rw [hd]; omega
+    simp [run, step, changeWorker, confirmChangeWorker, processPendingWorker, h1, hnw, hnone, this]
+  · intro he
+    have : e < e0 + workerKeyChangeDelay := by rw [hd]; omega
+    simp [run, step, changeWorker, confirmChangeWorker, processPendingWorker, h1, hnw, hnone, this]
+
+/-- the three-message beneficiary handover (owner proposes, nominee and sitting beneficiary approve,
+    in either order) goes through in every state where the three parties are distinct and the
+    sitting beneficiary's term is active; with one approval missing nothing changes hands -/
+theorem beneficiary_handover_completes (s : State) (n : Nat) (q x e1 e2 e3 : Int)
+    (hno : n ≠ s.owner) (hnb : n ≠ s.beneficiary) (hbo : s.beneficiary ≠ s.owner) (hq : 0 < q)
+    (hact : s.benTerm.available e1 ≠ 0) :
+    let propose := Op.changeBeneficiary s.owner n q x e1 true
+    let byNominee := Op.changeBeneficiary n n q x e2 true
+    let byBeneficiary := Op.changeBeneficiary s.beneficiary n q x e3 true
+    (run s [propose, byNominee]).beneficiary = s.beneficiary ∧
+    (run s [propose, byBeneficiary]).beneficiary = s.beneficiary ∧
+    (run s [propose, byNominee, byBeneficiary]).beneficiary = n ∧
+    (run s [propose, byBeneficiary, byNominee]).beneficiary = n ∧
+    (run s [propose, byNominee, byBeneficiary]).benTerm = { quota := q, usedQuota := 0, expiration := x } := by
+  have hq' : ¬ q ≤ 0 := by omega
+  have hob : ¬ s.owner = s.beneficiary := fun h => hbo h.symm
+  have hon : ¬ s.owner = n := fun h => hno h.symm
+  have hbn : ¬ s.beneficiary = n := fun h => hnb h.symm
+  simp [run, step, changeBeneficiary, benFinish, hno, hnb, hbo, hq', hact, hob, hon, hbn]
+
 /-! ### Non-vacuity: concrete histories meeting the hypotheses (100 owner, 101 worker,
     102 control, 103 new owner, 104 new worker, 105/106 nominees, 107 stranger) -/
 
@@ -683,5 +826,11 @@ example : exBusy.pendingOwner = some 103 ∧ exBusy.pendingWorker.isSome ∧ exB
 example : (step exBusy (.changeOwner 103 103 true)).1.pendingBen = none ∧
     (step exBusy (.changeOwner 103 103 true)).1.beneficiary = 105 ∧
     (step exBusy (.changeOwner 103 103 true)).1.owner = 103 := by decide
+
+/-- `exBusy` is reachable from a fresh miner, so `PendingWF` applies to it; and a withdrawal by
+    beneficiary 105 at epoch 12 (term: quota 50 until 1000) meets `withdraw_within_term` -/
+example : PendingWF exBusy := pendingWF_run _ _ (pendingWF_init 100 101 [102])
+example : (step exBusy (.withdrawUse 105 30 12 true)).2 = .withdrawn 30 ∧
+    exBusy.beneficiary ≠ exBusy.owner := by decide
 
 end BA.MinerControl
